@@ -132,6 +132,49 @@ def run(ctx):
                 r = l1.from_json(v["select"]["value"]) or ("A", 999999)
             cases.append("(%s, %s, %s)" % (c01.cpast(a1, and_sid), l1.ctoks(tk1), "None" if r is None else "(Some %s)" % l1.coq_tree(r)))
             meta.append(dict(sql=l1.text_of_tokens(tk1)))
+    # ---- every operator spelling of the grammar (not only the vocabulary with a reference level), identifier operands incl. @names:
+    #      the subtree must be the same in every position, bare and wrapped in one redundant pair of parentheses
+    ops = [" ".join(sp["words"]) for sp in T["spell"] if T["entries"][sp["entry"]]["kind"] == "bin" and not sp["words"][0].startswith("#")]
+    pre = [" ".join(sp["words"]) for sp in T["spell"] if T["entries"][sp["entry"]]["kind"] == "pre"]
+    atoms = ["n", "@v", "t.c", "m1", "'s'", "7", "f(y, 2)", "k"]
+    exprs = []
+    for op in ops:
+        for l, r in (("n", "n + 1"), ("@v", "m1 * k"), ("t.c", "'s'"), ("f(y, 2)", "7")):
+            exprs.append("%s %s %s" % (l, op, r))
+    for p in pre:
+        exprs += ["%s n" % p, "%s (n + k)" % p]
+    exprs += ["n between m1 and k", "n not between m1 and k + 1", "n in (m1, k)", "n not in (select k from u)", "case when n then m1 else k end", "cast(n as int)", "n::int", "n[1]", "n.m1", "(n, k)"]
+    rr = ctx.rng("c10b")
+    if not ctx.thorough:
+        exprs = [e for i, e in enumerate(exprs) if i % 2 == ctx.seed % 2] + exprs[:4]
+    for e in exprs:
+        ref = None
+        for pn, (mk, get) in POS.items():
+            if pn == "between operand":
+                continue
+            for style, txt in (("bare", e), ("wrapped", "(" + e + ")")):
+                sql = mk(txt)
+                st, v = impl.outcome(impl.M.parse, sql)
+                ctx.count(1, (txt, pn))
+                if st == "exc":
+                    continue    # C14's business
+                if st != "ok":
+                    got = ("REJECTED",)
+                else:
+                    try:
+                        got = canon(get(v))
+                    except Exception as ex:
+                        got = ("NOPATH", repr(ex))
+                if ref is None:
+                    ref = (got, sql)
+                    if got[0] == "REJECTED":
+                        break
+                elif got != ref[0]:
+                    ctx.violation("input", dict(expression=txt, position=pn, style=style, sql=sql, subtree=short(got, 700), reference_sql=ref[1], reference_subtree=short(ref[0], 700),
+                                                requires="the same subtree in every position and under redundant parentheses"))
+                    break
+            if ref and ref[0][0] == "REJECTED":
+                break
     ctx.sample(dict(expression=txt0, redundant=txt1, positions=list(POS)))
     res, log = c01.run_cases(ctx, "c10", cases)
     if res is None:
